@@ -1,10 +1,11 @@
-SPECIFICATION Spec
+SPECIFICATION FSpec
 CONSTANTS
+  AckFaults = 1
   B = 3
   MaxBlocks = 2
   Protocols = {2, 3, 4}
   AllPatterns = FALSE
   StepCheck = TRUE
-  AsCoded = TRUE
-INVARIANTS Export FinalEqualsSrc SkippedNeverExceedsProven
+  AsCoded = FALSE
+INVARIANTS TypeOK FinalEqualsSrc MatchIsProven OthersUntouched
 CHECK_DEADLOCK FALSE
